@@ -243,7 +243,7 @@ def p_moveaxis(rng: Any) -> tuple[str, list[Any]]:
     return 'moveaxis/M@MT', [m, mt]
 
 
-N_NEARMISS = 8
+N_NEARMISS = 9
 
 
 def p_nearmiss(rng: Any, form: int | None = None) -> tuple[str, list[Any]]:
@@ -311,6 +311,19 @@ def p_nearmiss(rng: Any, form: int | None = None) -> tuple[str, list[Any]]:
         idx = (jnp.asarray(arr, dtype=jnp.int32),)
         ix = IndexOperator(idx, in_structure=s, out_structure=gen.index_out_structure(s, idx))
         return 'nearmiss/index@index.T-with-duplicates', [ix, ix.T]
+    if form == 8 and s.shape[0] >= 2:
+        # two DIFFERENT index operators with equal structures whose indices differ by an integer / a slice only
+        n0 = s.shape[0]
+        if len(s.shape) >= 2 and rng.integers(2):
+            a, b = (int(v) for v in rng.permutation(n0)[:2])
+            ia, ib = (a,), (b,)
+        else:
+            w = int(rng.integers(1, n0))
+            a, b = (int(v) for v in rng.permutation(n0 - w + 1)[:2])
+            ia, ib = (slice(a, a + w),), (slice(b, b + w),)
+        p = IndexOperator(ia, in_structure=s, out_structure=gen.index_out_structure(s, ia))
+        q = IndexOperator(ib, in_structure=s, out_structure=gen.index_out_structure(s, ib))
+        return ('nearmiss/index@otherindex.T-static', [p, q.T]) if rng.integers(2) else ('nearmiss/index.T@otherindex-static', [q.T, p])
     # lazy inverse next to an equal but different operator
     band = jnp.asarray([4.0, 1.0], dtype=s.dtype)
     x1 = SymmetricBandToeplitzOperator(band, s, method='dense')
